@@ -311,6 +311,13 @@ def run(prog, chk):
         f = R.ev_method(fn)
         has = any(R.is_sim_call(n, (rs.short,)) for n in SX.walk(f.body, into_lambdas=True))      # also inside a local closure of the function
         chk.ob('R04.4', f, f.ln, has, '%s resets the qubit through the simulator\'s reset' % role, key='path:' + fn)
+    # the implicit reset of index reuse hits only an index nobody owns: the index handed out is the free-list element that is
+    # removed (an index that stays on the list is handed out twice, and the second owner's reset clears the first owner's qubit)
+    free = [x['name'] for x in R.ev['fields'] if x['type'] == 'std::vector<int>' and 'free' in x['name'].lower()]
+    if len(free) == 1:
+        from .C03 import reuse_discipline
+        for key, a_, ok_, detail in reuse_discipline(prog, R, sim, sim['allocate'], R.ev_method('allocateTrackedQubit'), free[0]):
+            chk.ob('R04.4', a_, a_.ln, ok_, 'index reuse: ' + detail, key='reuse:' + key)
     # no other simulator method zeroes amplitudes wholesale
     other = []
     for f in R.sim_methods():
